@@ -772,3 +772,40 @@ func init() {
 		IgnoreKinds: []string{"panic", "hang", "deadlock", "spin"},
 	}
 }
+
+func init() {
+	checks["C14"] = &CheckDef{
+		ID: "C14",
+		Jobs: func(tier string, p *Program) []*Job {
+			var jobs []*Job
+			ns := []int{0, 1, 2}
+			if tier == "thorough" {
+				ns = []int{0, 1, 2, 3}
+			}
+			for _, n := range ns {
+				for _, m := range []int{1, 2, 3} {
+					for _, k := range []int{1, 2} {
+						for _, ab := range []string{"0", "1"} {
+							if m == 1 && (k > 1 || ab == "1") {
+								continue
+							}
+							j := mkJob(".ZZ_C14_Local", shellSetup, "n", itoa(n), "m", itoa(m), "k", itoa(k), "abort", ab)
+							j.Reach = []string{"candidate-inserted"}
+							jobs = append(jobs, j)
+						}
+					}
+				}
+			}
+			return jobs
+		},
+		Assumptions: []string{
+			"buffer of n symbolic characters over {a, b, blank, single quote, é}, cursor anywhere; the application completer returns m candidates that extend the blank-delimited word before the cursor; TAB (complete) is typed k times, optionally followed by Ctrl-C",
+			"word start = after the last blank before the cursor (independent reference); a unique candidate may be accepted at once with a trailing space",
+			"the display engine runs unstubbed (menus are built and printed for real, output discarded); the terminal answers cursor-position queries with ESC[1;1R",
+		},
+		Stubs:  []string{"tty ioctls", "stdin = zzverif.Script", "stdout discarded"},
+		Bounds: map[string]string{"quick": "n <= 2, m <= 3 candidates, k <= 2 TABs", "thorough": "n <= 3"},
+		Rule:   "one state per completed symbolic path",
+		IgnoreKinds: []string{"panic", "hang", "deadlock", "spin"},
+	}
+}
